@@ -197,6 +197,7 @@ type World struct {
 	Log     []Entry
 	Emitted int // Log[:Emitted] has happened on the server
 	P0, Q0  int
+	Seq     int // the server's seq: number of the last container it has sent (delivered or not)
 	C0      map[int64]int // every channel of the scenario and the pts its part of the log starts from
 
 	// Fresh: channels the storage knows nothing about at the start (they are met during the run).
@@ -361,11 +362,11 @@ func (w *World) commonDifference(pts, qts int) tg.UpdatesDifferenceClass {
 	}
 	if len(part) == 0 && len(w.takeExtras("pts", true)) == 0 {
 		w.Served = append(w.Served, Served{Seq: "pts", Kind: "empty"})
-		return &tg.UpdatesDifferenceEmpty{Date: Date0, Seq: 0}
+		return &tg.UpdatesDifferenceEmpty{Date: Date0, Seq: w.Seq}
 	}
 	extras := w.takeExtras("pts", false)
 	w.contact(extras, "common-difference")
-	st := tg.UpdatesState{Pts: pts, Qts: qts, Date: Date0, Seq: 0}
+	st := tg.UpdatesState{Pts: pts, Qts: qts, Date: Date0, Seq: w.Seq}
 	sv := Served{Seq: "pts", Kind: "diff"}
 	var msgs []tg.MessageClass
 	var enc []tg.EncryptedMessageClass
